@@ -682,6 +682,15 @@ func (w *World) do(op Op) string {
 			return "err"
 		}
 		return fmt.Sprintf("l:%d", n)
+	case "cjson":
+		// an application may marshal a collection handle at any time (json.Marshal(coll)): a read-only call
+		if _, err := c.MarshalJSON(); err != nil {
+			return "err"
+		}
+		return "ok"
+	case "setnil":
+		// Collection.Set (the convenience wrapper, random priority) with a nil value: rejected, nothing changes
+		return errs(c.Set(op.Key, nil))
 	}
 	panic("unknown op " + op.K)
 }
@@ -862,6 +871,10 @@ func (w *World) Expect(op Op) string {
 		return visObs(vs, op.WV, false, nil)
 	case "len":
 		return fmt.Sprintf("l:%d", len(c.Items))
+	case "cjson":
+		return "ok"
+	case "setnil":
+		return "err"
 	case "itx":
 		var seq []RefItem
 		for _, it := range c.Items {
